@@ -16,7 +16,7 @@ def rd(name):
 
 # names of everything that is assumed (external_body / assume_specification) in this batch: the Verus TCB ledger
 TRUSTED = [
-    'verif_unreachable', 'core::result::Result::<T,E>::and_then', 'reader_clone',
+    'verif_unreachable', 'core::result::Result::<T,E>::and_then', 'reader_clone', 'i64::unsigned_abs',
 ]
 
 DW_TYPES = ['DwUt', 'DwCfa', 'DwChildren', 'DwTag', 'DwAt', 'DwForm', 'DwAte', 'DwLle', 'DwDs', 'DwEnd', 'DwAccess',
